@@ -70,3 +70,29 @@ func VerifPlanDetail(idx Index, seeds ...Seed) (out [][7]uint64) {
 	}
 	return out
 }
+
+// VerifSelfSeed runs a self seed over idx: the segments [first,last] are added in the given
+// order; after each add it reports the write pointer and, for every id in queries, the row the
+// seed offers for it (-1 if none).
+func VerifSelfSeed(idx Index, adds [][2]int, queries []ChunkID) (written []int, rows [][]int) {
+	s := &selfSeed{file: "", pos: make(map[ChunkID][]int), index: idx, cache: make(map[int]int)}
+	for _, a := range adds {
+		s.add(IndexSegment{index: idx, first: a[0], last: a[1]})
+		written = append(written, s.written)
+		var r []int
+		for _, id := range queries {
+			row := -1
+			if seg := s.getChunk(id); seg != nil {
+				if fs, ok := seg.(*fileSeedSegment); ok && len(fs.chunks) == 1 {
+					row = s.pos[id][0]
+					if idx.Chunks[row].Start != fs.chunks[0].Start {
+						row = -2
+					}
+				}
+			}
+			r = append(r, row)
+		}
+		rows = append(rows, r)
+	}
+	return written, rows
+}
